@@ -6,6 +6,6 @@ for id in C01 C02 C03 C04 C05 C06 C07 C08 C09 C10 C11 C12 C13 C14 C15 C16 C17 C1
   s=$(date +%s)
   out=$(./run.sh $id $tier 2>&1); rc=$?
   e=$(date +%s)
-  echo "$id rc=$rc wall=$((e-s))s :: $(echo "$out" | grep -E "^C[0-9]+ " | tail -1)"
-  echo "$out" | grep -E "^(VIOLATION|INCONCLUSIVE|BUILD)" | cut -c1-300
+  echo "$id rc=$rc wall=$((e-s))s :: $(echo "$out" | grep -aE "^C[0-9]+ " | tail -1)"
+  echo "$out" | grep -aE "^(VIOLATION|INCONCLUSIVE|BUILD)" | cut -c1-300
 done
